@@ -95,6 +95,8 @@ public:
    */
   template<class T> static T logsum(T lnx, T lny)
   {
+    if (lnx == lny && std::isinf(lnx))
+      return lnx;
     return (lny < lnx) ?
            lnx + std::log(1. + exp(lny - lnx)) :
            lny + std::log(1. + exp(lnx - lny));
